@@ -85,14 +85,7 @@ def gen_problem(rng, t):
     # every problem uses each kind of boundary condition it defines somewhere on its outer box: a surface-charge (type 2) and a mixed (type 1)
     # condition that no line carries are not exercised at all (a seeded change of the axisymmetric surface-charge weight went unreported at
     # one seed for that reason)
-    used = {s["bc"] for s in p.segs if s["bc"] >= 0}
-    for bi, b in enumerate(p.bdryprops):
-        if b["type"] in (1, 2) and bi not in used:
-            free = [s for s in p.segs[:4] if s["bc"] < 0 and s.get("cond", -1) < 0 and
-                    not (p.ptype == "axi" and p.nodes[s["n0"]]["x"] == 0 and p.nodes[s["n1"]]["x"] == 0)]
-            if free:
-                free[-1]["bc"] = bi
-                used.add(bi)
+    gen.use_all_bdry(p, (1, 2))
     return p
 
 
